@@ -602,7 +602,23 @@ def execute(h):
                        c.get('clock0', cfg['clock0'])))
             clocks.append(own)
             cclk.append(own)
-            convs.append(MoneyConverter(base, get_dflt_effective_date=own))
+            if len(convs) % 4 == 2:
+                # the callable is a bound method of an object that only
+                # the converter refers to from now on
+                class Calendar:
+                    def __init__(self, clk):
+                        self.clk = clk
+
+                    def booking_date(self):
+                        return self.clk()
+                convs.append(MoneyConverter(
+                    base,
+                    get_dflt_effective_date=Calendar(own).booking_date))
+                import gc
+                gc.collect()
+            else:
+                convs.append(MoneyConverter(base,
+                                            get_dflt_effective_date=own))
         else:
             cclk.append(sysclock)
             # "no callable" is spelled by leaving the argument out, or as
